@@ -7,8 +7,8 @@
 //!          by *observation* (a scratch interface with the same seed: connect, poll, read the SYN) - the
 //!          model consumes one per successful connect / per SYN accepted in LISTEN.
 //!   ts=1   TCP timestamps enabled; the generator returns (now_ms + 1000) mod 2^32.
-//! Interface address 10.0.0.1/24, peer 10.0.0.2.  Events (times in ms, integers decimal):
-//!   listen <port> [a=1]          a=1: bind to the interface address instead of "any"
+//! The interface owns TWO addresses, 10.0.0.1/24 and 10.0.0.3/24; peer 10.0.0.2.  Events (times in ms, integers decimal):
+//!   listen <port> [a=1|3]        bind to 10.0.0.1 / 10.0.0.3 instead of "any"
 //!   connect rp=<port> lp=<port> [ra=4|0|6|60] [la=-|4|0]
 //!                                remote address: peer (4, default), 0.0.0.0 (0), fd00::2 (6), :: (60);
 //!                                local address: chosen by the interface (-), 10.0.0.1 (4), 0.0.0.0 (0)
@@ -16,7 +16,7 @@
 //!   sendf <k> | recvf <k>        the closure API Socket::send(f) / recv(f): f sees ONE contiguous slice and
 //!                                takes min(k, slice length) octets; `ret <n> [hash hex] sl=<slice length>'
 //!   set timeout=<ms|-> | set keepalive=<ms|-> | set ackdelay=<ms|-> | set nagle=<0|1> | set hoplimit=<n|->
-//!   seg t=<ms> sp=<port> dp=<port> seq=<u32> ack=<u32|-> fl=<subset of SFRP|-> win=<u16> len=<n>
+//!   seg t=<ms> [da=1|3] sp=<port> dp=<port> seq=<u32> ack=<u32|-> fl=<subset of SFRP|-> win=<u16> len=<n>
 //!       po=<k>|x<k> mss=<v|-> ws=<v|-> sackp=<0|1> ts=<val:ecr|->
 //!       one peer segment (valid checksums) handed to Interface::poll_ingress_single; payload byte i is
 //!       peer_byte(k+i) = (7(k+i)+3) mod 253, or 255 - that for the inconsistent variant x<k>
@@ -26,7 +26,7 @@
 //! off = number of bytes accepted so far.
 //! Observations after every event:
 //!   ret ok | ret E<code> | ret <n> | ret <n> <fnv32> <first bytes hex> | ret PANIC   (API calls)
-//!   tx sp= dp= seq= ack= fl= win= len= mss= ws= sackp= sack= ts= hl= ph=   (every frame emitted, parsed)
+//!   tx sa=<1|3> sp= dp= seq= ack= fl= win= len= mss= ws= sackp= sack= ts= hl= ph=   (every frame emitted, parsed)
 //!   st <STATE>   q <send_queue> <recv_queue>
 //!   cap <may_send><may_recv><can_send><can_recv><is_listening><is_active><is_open>
 //!   pollat <none|now|ms>      (Interface::poll_at at the current time)
@@ -42,6 +42,8 @@ use svh::dev::QDev;
 use svh::*;
 
 pub const LOCAL: [u8; 4] = [10, 0, 0, 1];
+/// second address of the interface (same subnet); `a=3` / `da=3` in the ops
+pub const LOCAL2: [u8; 4] = [10, 0, 0, 3];
 pub const PEER: [u8; 4] = [10, 0, 0, 2];
 const M32: i64 = 1 << 32;
 pub const POLL_FRAME_LIMIT: usize = 20000;
@@ -108,6 +110,8 @@ pub struct Tx {
     pub sack: Vec<(u32, u32)>,
     pub ts: Option<(u32, u32)>,
     pub hl: u8,
+    /// last octet of the source address (1 or 3: the interface's two addresses)
+    pub sa: u8,
     pub payload: Vec<u8>,
 }
 impl Tx {
@@ -120,7 +124,7 @@ impl Tx {
         let t = TcpPacket::new_checked(ip.payload()).map_err(|_| "tcp len")?;
         let r = TcpRepr::parse(&t, &ipr.src_addr.into(), &ipr.dst_addr.into(), &ChecksumCapabilities::default())
             .map_err(|_| "tcp parse")?;
-        if ipr.src_addr != Ipv4Address::from(LOCAL) || ipr.dst_addr != Ipv4Address::from(PEER) {
+        if (ipr.src_addr != Ipv4Address::from(LOCAL) && ipr.src_addr != Ipv4Address::from(LOCAL2)) || ipr.dst_addr != Ipv4Address::from(PEER) {
             return Err(format!("addresses {} -> {}", ipr.src_addr, ipr.dst_addr));
         }
         Ok(Tx {
@@ -137,6 +141,7 @@ impl Tx {
             sack: r.sack_ranges.iter().flatten().cloned().collect(),
             ts: r.timestamp.map(|t| (t.tsval, t.tsecr)),
             hl: ipr.hop_limit,
+            sa: ipr.src_addr.octets()[3],
             payload: r.payload.to_vec(),
         })
     }
@@ -155,7 +160,8 @@ impl Tx {
             self.sack.iter().map(|(l, r)| format!("{}-{}", l, r)).collect::<Vec<_>>().join(";")
         };
         format!(
-            "tx sp={} dp={} seq={} ack={} fl={} win={} len={} mss={} ws={} sackp={} sack={} ts={} hl={} ph={:08x}",
+            "tx sa={} sp={} dp={} seq={} ack={} fl={} win={} len={} mss={} ws={} sackp={} sack={} ts={} hl={} ph={:08x}",
+            self.sa,
             self.sp,
             self.dp,
             self.seq,
@@ -252,6 +258,7 @@ impl Sim {
         let mut iface = Interface::new(c, &mut dev, Instant::ZERO);
         iface.update_ip_addrs(|a| {
             a.push(IpCidr::new(IpAddress::v4(LOCAL[0], LOCAL[1], LOCAL[2], LOCAL[3]), 24)).unwrap();
+            a.push(IpCidr::new(IpAddress::v4(LOCAL2[0], LOCAL2[1], LOCAL2[2], LOCAL2[3]), 24)).unwrap();
         });
         let mut s = tcp::Socket::new(
             tcp::SocketBuffer::new(vec![cfg.fill; cfg.rx]),
@@ -317,7 +324,7 @@ impl Sim {
             payload: &payload,
         };
         let src = Ipv4Address::from(PEER);
-        let dst = Ipv4Address::from(LOCAL);
+        let dst = if kv(toks, "da") == Some("3") { Ipv4Address::from(LOCAL2) } else { Ipv4Address::from(LOCAL) };
         let ipr = Ipv4Repr { src_addr: src, dst_addr: dst, next_header: IpProtocol::Tcp, payload_len: repr.buffer_len(), hop_limit: 64 };
         let mut buf = vec![0u8; ipr.buffer_len() + repr.buffer_len()];
         let caps = ChecksumCapabilities::default();
@@ -362,6 +369,8 @@ impl Sim {
                 let port: u16 = toks[1].parse().unwrap();
                 let r = if kv(&toks, "a") == Some("1") {
                     self.sock().listen(IpListenEndpoint { addr: Some(IpAddress::v4(LOCAL[0], LOCAL[1], LOCAL[2], LOCAL[3])), port })
+                } else if kv(&toks, "a") == Some("3") {
+                    self.sock().listen(IpListenEndpoint { addr: Some(IpAddress::v4(LOCAL2[0], LOCAL2[1], LOCAL2[2], LOCAL2[3])), port })
                 } else {
                     self.sock().listen(port)
                 };
